@@ -68,6 +68,10 @@ fn worker(args: &[String]) -> i32 {
     let out = &args[5];
     let prop = vh::props::get(id).expect("unknown property");
     install_panic_hook();
+    start_watchdog(case_limit_s(), || {
+        eprintln!("a case did not finish within the per-case limit");
+        HANG_EXIT
+    });
     let units = prop.units(tier);
     let mut res = WorkerResult::default();
     // Jobs are dealt round-robin after a seed-independent interleave so that heavy units spread.
@@ -187,7 +191,14 @@ fn check(id: &str, tier: Tier) -> i32 {
     let mut per_unit: BTreeMap<String, u64> = BTreeMap::new();
     let mut failures: Vec<(usize, Failure)> = Vec::new();
     let mut infra = false;
+    let mut died = false;
     for (w, mut child, out) in children {
+        if died {
+            // one reproduced abort / hang is enough: the other workers are most likely stuck on the same defect
+            let _ = child.kill();
+            let _ = child.wait();
+            continue;
+        }
         let status = loop {
             match child.try_wait() {
                 Ok(Some(s)) => break Some(s),
@@ -230,12 +241,17 @@ fn check(id: &str, tier: Tier) -> i32 {
                     .status();
                 match (again, std::fs::read(&trace).ok().and_then(|b| serde_json::from_slice::<Value>(&b).ok())) {
                     (Ok(st), Some(v)) if !st.success() => {
+                        died = true;
                         failures.push((
                             0,
                             Failure {
                                 unit: v["unit"].as_str().unwrap_or("").to_string(),
                                 case: v["case"].clone(),
-                                fail: Fail::new(&format!("{id}.abort"), format!("the process died ({st}) while executing this case")),
+                                fail: if st.code() == Some(HANG_EXIT) {
+                                    Fail::new(&format!("{id}.hang"), format!("this case did not finish within {} s (cases normally take milliseconds)", case_limit_s()))
+                                } else {
+                                    Fail::new(&format!("{id}.abort"), format!("the process died ({st}) while executing this case"))
+                                },
                             },
                         ));
                     }
@@ -320,6 +336,17 @@ fn main() {
         }
         Some("replay") => {
             install_panic_hook();
+            {
+                static REPLAY_FILE: std::sync::OnceLock<String> = std::sync::OnceLock::new();
+                let _ = REPLAY_FILE.set(args[1].clone());
+                start_watchdog(case_limit_s(), || {
+                    let f = REPLAY_FILE.get().cloned().unwrap_or_default();
+                    let id = std::fs::read(&f).ok().and_then(|b| serde_json::from_slice::<Value>(&b).ok()).and_then(|v| v["property"].as_str().map(|s| s.to_string())).unwrap_or_default();
+                    eprintln!("{id}.hang: the saved case did not finish within the per-case limit");
+                    println!("VIOLATION property={id} replay={f}");
+                    1
+                });
+            }
             match run_replay_file(Path::new(&args[1])) {
                 Ok((id, out)) => match out.fail {
                     None => {
